@@ -67,24 +67,37 @@ structure Cfg where
   finalizeResetsTrace : Bool   -- `_finalize`: `self._target_spec_trace = None`
   deriving DecidableEq, Repr
 
-/-- `GlomError.__str__` -/
-def render (cfg : Cfg) (h : Heap) (e : Nat) : Text × Heap :=
-  let o := h e
-  match (if cfg.strReturnsMemo then o.finalizedStr else none) with
-  | some t => (t, h)
+/-- `if getattr(self, '_finalized_str', None): return self._finalized_str` -/
+def memoOf (cfg : Cfg) (o : EObj) : Option Text := if cfg.strReturnsMemo then o.finalizedStr else none
+
+/-- the trace `__str__` shows: the one already on the object (when the source reuses it), or
+    `format_target_spec_trace(self._scope, self.__wrapped)` -/
+def traceOf (cfg : Cfg) (o : EObj) (s : Nat) : Nat × Option Nat :=
+  match (if cfg.strReusesTrace then o.traceMemo else none) with
+  | some tr => tr
+  | none => (s, o.wrapped)
+
+/-- header, trace, `parts.extend(self._tb_lines)` -/
+def textOf (o : EObj) (tr : Nat × Option Nat) : Text :=
+  match o.tbLines with
+  | some (l, tt) => .full tr.1 tr.2 l tt
+  | none => .attrError
+
+/-- `GlomError.__str__` on the `__dict__` of the object -/
+def strObj (cfg : Cfg) (o : EObj) : Text × EObj :=
+  match memoOf cfg o with
+  | some t => (t, o)
   | none =>
     match o.scope with
-    | none => (.plain o.args, h)
+    | none => (.plain o.args, o)
     | some s =>
-      let tr : Nat × Option Nat :=
-        match (if cfg.strReusesTrace then o.traceMemo else none) with
-        | some tr => tr
-        | none => (s, o.wrapped)
-      let t : Text := match o.tbLines with
-        | some (l, tt) => .full tr.1 tr.2 l tt
-        | none => .attrError
-      (t, h.set e { o with traceMemo := some tr,
-                           finalizedStr := if cfg.strStoresMemo then some t else o.finalizedStr })
+      let tr := traceOf cfg o s
+      let t := textOf o tr
+      (t, { o with traceMemo := some tr, finalizedStr := if cfg.strStoresMemo then some t else o.finalizedStr })
+
+def render (cfg : Cfg) (h : Heap) (e : Nat) : Text × Heap :=
+  let r := strObj cfg (h e)
+  (r.1, h.set e r.2)
 
 /-- `err._finalize(scope)` while `e` is the exception being handled -/
 def finalize (cfg : Cfg) (h : Heap) (lvl e err : Nat) : Heap :=
